@@ -19,6 +19,11 @@ fn apply(sess: &mut Session, ev: &J) -> String {
             return r;
         }
         sess.exec(&json!({"op":"Reopen","args":{}}))
+    } else if ev["op"] == "Save" {
+        sess.exec(&json!({"op":"Flush","args":{}}))
+    } else if ev["op"] == "Reopen" {
+        // the object is abandoned; a new one is opened from the bytes the medium held at its last flush
+        sess.exec(&json!({"op":"Crash","args":{}}))
     } else {
         sess.exec(&json!({"op":"SetSummary","args": ev["args"]}))
     }
